@@ -105,6 +105,9 @@ Release(J) ==
     IF J.releases > 0 THEN Bad(J, "storage released twice")
     ELSE [J EXCEPT !.releases = 1]
 
+\* any access to the event's storage (state, cells, diagnostics): never after the release
+Access(J) == IF J.releases > 0 THEN Bad(J, "event storage accessed after it was released") ELSE J
+
 -----------------------------------------------------------------------------
 (* state predicates                                                        *)
 
